@@ -46,21 +46,11 @@ func c01SortKind(sortClause string) string {
 }
 
 func c01QueryText(top *c01Filter, sortClause string) string {
-	s := top.a.text()
+	s := ""
 	if sortClause != "" {
-		s += " sort by " + sortClause
+		s = "sort by " + sortClause
 	}
-	if top.skip != nil {
-		s += " skip " + strconv.FormatInt(*top.skip, 10)
-	}
-	if top.limit != nil {
-		if *top.limit == -1 {
-			s += " limit none"
-		} else {
-			s += " limit " + strconv.FormatInt(*top.limit, 10)
-		}
-	}
-	return s
+	return c01JoinQuery(top.a.text(), s, c01PagingText(top))
 }
 
 // c01ListCursor: a caller-provided cursor over some of the ids of the entities bucket, in bolt order or reversed
@@ -276,7 +266,7 @@ func c01SweepStrategies(r *c01Runner) int {
 	n := 0
 	for store := range c01Cur.raw {
 		cat := c01Catalogue(store, false)
-		filters := []*c01Filter{{k: "bc", b: true}}
+		filters := []*c01Filter{{k: "bc", b: true}, {k: "bc", b: true, absent: true}}
 		want := map[string]bool{"name": true, "age": true, "flag": true, "pop": true, "size": true, c01MapNameIn(store, "tags") + ".a": true}
 		for _, s := range c01Cur.raw[store].syms {
 			if c01Cur.raw[store].isChild {
